@@ -142,13 +142,18 @@ func failForm(kind string) gen.Val {
 		return L(S("mbs"), S("x"))
 	case "arg-of-call":
 		return L(S("list"), I(1), L(S("car"), S("x")), I(3))
+	case "set-unbound":
+		// assignment to a name bound nowhere: raised below the innermost scope
+		return L(S("set!"), S("no-such-var"), L(S("+"), S("x"), I(1)))
+	case "set-constant":
+		return L(S("set!"), S("true"), S("x"))
 	default:
 		return L(S("mod"), S("x"), I(0))
 	}
 }
 
 var failKinds = []string{"unbound", "unbound-head", "error", "type", "type2", "arity", "arity0", "user-arity", "macro-template", "macro-built", "arg-of-call", "mod-zero",
-	"macro-template-splice", "macro-built-nested", "macro-built-symbol-nested"}
+	"macro-template-splice", "macro-built-nested", "macro-built-symbol-nested", "set-unbound", "set-constant"}
 var wrapKinds = []string{"let", "let*", "cond", "dotimes", "handler-bind", "progn", "if", "plus-arg", "map-callback", "funcall", "apply", "labels", "flet", "and", "or-last", "thread-first", "foldl"}
 
 func wrap(kind string, inner gen.Val) gen.Val {
@@ -352,9 +357,17 @@ func check(cs Case, c *vcommon.Ctx) *vcommon.Failure {
 		if loc.Pos < 0 || loc.Pos >= len(src) {
 			return vcommon.Failf("location/outside-source/"+cs.Kind, "location %d:%d (offset %d) is outside the source (%d bytes)\n%s", loc.Line, loc.Col, loc.Pos, len(src), src)
 		}
-		if got := (Loc{loc.Pos, loc.Line, loc.Col}); got != want {
+		gotLoc := Loc{loc.Pos, loc.Line, loc.Col}
+		if alt, ok := pos[rerr.Node-2]; ok && strings.HasPrefix(cs.Kind, "set-") && gotLoc == alt {
+			// "the symbol itself for an unbound symbol" or "the call expression
+			// for a function rejecting its arguments": for a rejected assignment
+			// both readings are accepted (the set! form is two nodes before its
+			// target symbol in pre-order)
+			gotLoc = want
+		}
+		if gotLoc != want {
 			return vcommon.Failf("location/wrong-form/"+cs.Kind, "error %q (%s) located at %d:%d (offset %d), the failing form is at %d:%d (offset %d) (debugger=%v)\n%s",
-				out.Cond, out.Msg, got.Line, got.Col, got.Pos, want.Line, want.Col, want.Pos, dbg, src)
+				out.Cond, out.Msg, gotLoc.Line, gotLoc.Col, gotLoc.Pos, want.Line, want.Col, want.Pos, dbg, src)
 		}
 		got := realFrames(out.Val)
 		if dbg {
